@@ -135,8 +135,15 @@ def judge(ld, case, values, res, cls, label) -> list:
             x = (Fraction(req) * c["d"] - c["n0"]) / c["n1"]
             fl = x.numerator // x.denominator
             cands = [fl] if x == fl else ([fl] if x - fl < Fraction(1, 2) else [fl + 1] if x - fl > Fraction(1, 2) else [fl, fl + 1])
-            ok = any(mh.same_value(refcodec.i2p(dop, i), got) is None or
-                     (isinstance(got, (int, float)) and refcodec.i2p(dop, i) == got) for i in cands)
+            def _img_ok(i):
+                try:
+                    y = refcodec.i2p(dop, i)
+                except refcodec.RefUnsupported:
+                    # non-integral image on an integer physical type: the decoder rounds it
+                    yf = (Fraction(c["n0"]) + Fraction(c["n1"]) * i) / c["d"]
+                    return isinstance(got, (int, float)) and not isinstance(got, bool) and abs(Fraction(got) - yf) <= Fraction(1, 2)
+                return mh.same_value(y, got) is None or (isinstance(got, (int, float)) and y == got)
+            ok = any(_img_ok(i) for i in cands)
             if not ok:
                 return [_fail("silent-misrepresentation", f"{label}: requested {req!r}, decoded {got!r}, admissible "
                               f"internal values {cands} (pdu {pdu.hex()})", case, {"label": label})]
